@@ -11,6 +11,7 @@
 #include <errno.h>
 #include <stdio.h>
 #include <string>
+#include <vector>
 
 #include "../math/vec.h"
 #include "../memory/malloc.h"
@@ -34,7 +35,11 @@ namespace rkcommon {
         throw std::runtime_error("Can't open file for writeP[FP]M!");
 
       fprintf(file, header, sizeX, sizeY);
-      auto out = STACK_BUFFER(COMP_T, N_COMP * sizeX);
+      // one row of output; on the heap, a row of a wide image does not fit on
+      // the stack
+      const size_t rowLength = static_cast<size_t>(N_COMP) * sizeX;
+      std::vector<COMP_T> rowBuffer(rowLength);
+      COMP_T *out = rowBuffer.data();
       for (int y = 0; y < sizeY; y++) {
         auto *in = (const COMP_T *)&pixel[(FLIP ? sizeY - 1 - y : y) * sizeX];
         for (int x = 0; x < sizeX; x++)
